@@ -128,6 +128,15 @@ Theorem C20_oracle_pairs_boundary : forall c h t,
 Proof. exact oracle_pairs_boundary. Qed.
 Print Assumptions C20_oracle_pairs_boundary.
 
+(** InitGenesis sees the genesis DECODED FROM JSON ([json_oracle_gen]); the theorems need the codec of
+    asset.Pair to be the identity on every stored pair (hypothesis [wa_json], checked on every dumped state,
+    and the generated fact [c_pair_json_id]).  Without it a pair is renamed by the import. *)
+Theorem C20_pair_json_codec_refuted : forall c F h t, f_pairjson F 5 = 4 ->
+  let s' := init_oracle c h t (json_oracle_gen F (export_oracle pair_json_witness)) in
+  o_pairs s' = [4] /\ map fst (o_rates s') = [4] /\ og_pairs (export_oracle s') <> og_pairs (export_oracle pair_json_witness).
+Proof. exact pair_json_codec_refuted. Qed.
+Print Assumptions C20_pair_json_codec_refuted.
+
 (** The boolean predicates evaluated on implementation traces are sound for the Props above. *)
 Theorem C20_checker_sound : forall k, Pb k = true ->
   gen_equiv (k_h k) (k_e1 k) (k_e2 k) /\
